@@ -126,7 +126,7 @@ func (b *backend) processEvents(cancel context.CancelFunc, out chan<- []*proto.E
 
 	// always ensure we fully read the channel
 	for events := range in {
-		verifhook.Yield("watch.process", revision, 0)
+		verifhook.Yield("watch.process", revision, uint64(len(events)))
 		evs := filterByPrefix(filterByRevision(events, revision), prefixBytes)
 		if len(evs) > 0 {
 			out <- evs
